@@ -250,7 +250,13 @@ class MemoryFileSystem(FileSystem):
     self._prefix = prefix
 
   def _internal_path(self, path: Union[str, os.PathLike[str]]) -> str:
-    return '/' + resolve_path(path).lstrip(self._prefix)
+    # NOTE: `str.lstrip` removes a set of characters instead of a prefix, thus
+    # we remove the prefix explicitly.
+    path = resolve_path(path)
+    prefix = self._prefix.rstrip('/')
+    if path == prefix or path.startswith(prefix + '/'):
+      path = path[len(prefix):]
+    return '/' + path.lstrip('/')
 
   def _locate(self, path: Union[str, os.PathLike[str]]) -> Any:
     current = self._root
@@ -268,15 +274,20 @@ class MemoryFileSystem(FileSystem):
     file = self._locate(path)
     if isinstance(file, dict):
       raise IsADirectoryError(path)
-    if 'w' in mode and file is None:
+    # 'w' always starts from an empty file (truncating an existing one), while
+    # 'a' creates the file only when it does not exist.
+    if 'w' in mode or ('a' in mode and file is None):
       parent_dir, name = self._parent_and_name(path)
-      if isinstance(parent_dir, dict):
-        buffer = io.BytesIO() if 'b' in mode else io.StringIO()
-        file = MemoryFile(buffer)
-        parent_dir[name] = file
+      if not isinstance(parent_dir, dict):
+        raise FileNotFoundError(path)
+      buffer = io.BytesIO() if 'b' in mode else io.StringIO()
+      file = MemoryFile(buffer)
+      parent_dir[name] = file
 
     if file is None:
       raise FileNotFoundError(path)
+    if 'a' in mode:
+      file.seek(0, 2)
     return file
 
   def chmod(self, path: Union[str, os.PathLike[str]], mode: int) -> None:
